@@ -87,12 +87,27 @@ def mixed_sub(chk, rng, w, wid, t1, t2, plan=None, related=False):
     steps = [{"id": "a", "e": a}, {"id": "b", "e": b}]
     for op in ["+", "-"] + ORDER_OPS + ["==", "!="]:
         steps.append({"k": op, "e": OP(op, V("a"), V("b"))})
+    # the routes programs take to the same comparisons
+    steps.append({"k": "sorted", "e": ["un", "sorted", ["l", [V("a"),
+                                                             V("b")]]]})
+    steps.append({"k": "in", "e": ["in", V("a"), ["l", [V("b")]]]})
+    steps.append({"k": "sum", "e": ["sum", ["l", [V("a"), V("b")]]]})
 
     def judge(obs):
         if not obs:
             chk.inconclusive_because("mixed-type case not observed")
             return
         chk.case((wid, "mixed", t1, t2, s1, s2))
+        if not is_exc(obs.get("sorted"), "IncompatibleUnitsError") or \
+                not is_exc(obs.get("sum"), "IncompatibleUnitsError") or \
+                obs.get("in", {}).get("v") is not False:
+            chk.violation("%s: %s (%s) with %s (%s): sorted() gives %s, "
+                          "quantity.sum() %s, `a in [b]` %s" %
+                          (wid, t1, s1, t2, s2, brief(obs.get("sorted")),
+                           brief(obs.get("sum")), brief(obs.get("in"))),
+                          dict(obs=obs, steps=steps, world=wid),
+                          "mixed-types")
+            return
         chk.count("mixed types in worlds")
         if related:
             chk.count("a subclass mixed with its parent type")
